@@ -397,6 +397,12 @@ def family_conn(tier='quick'):
         excl = [('s0', 't0')] if trial % 2 == 0 else [('s0', 't1'), ('s1', 't0')]
         out.append(Desc(['A'], [], ['A'], conns=conns, conn_choices=[('CC', ['s0', 's1'], ['t0', 't1'], excl)],
                         label=f'conn-excl-{trial}'))
+    # several exclusion edges of which an earlier one touches a conditional connector
+    opt = ('range', 0, 1)
+    for trial, excl in enumerate(([('sA', 't1'), ('sB', 't2')], [('sB', 't2'), ('sA', 't1')], [('sA', 't1'), ('sA', 't2'), ('sB', 't1')])):
+        out.append(Desc(['A', 'P0', 'P1'], [], ['A'], choices=[('C1', 'A', ['P0', 'P1'])],
+                        conns=[('sA', opt, False, 'P0'), ('sB', opt, False, 'A'), ('t1', opt, False, 'A'), ('t2', opt, False, 'A')],
+                        conn_choices=[('CC', ['sA', 'sB'], ['t1', 't2'], excl)], label=f'conn-excl-cond-{trial}'))
     # grouping node over a permanent and a conditional member (the documented example shape)
     for trial in range(3 if tier == 'quick' else 8):
         dm = [(('range', 1, 2), False), (('list', (1,)), False), (('range', 0, 1), False)][trial % 3]
